@@ -5,7 +5,12 @@ From Orbit Require Export Corr.AccessCorr.
 Inductive case :=
 (* one mutated entry delivered as announced head or reachable as an ancestor;
    [mismatch] = the target was announced under an address its content does not hash to *)
-| CMut (d : delivery) (mismatch : bool).
+| CMut (d : delivery) (mismatch : bool)
+(* the same found in the heads cache by Load after a restart.  Load joins the whole log it
+   fetched for a cached head at once (all or nothing), which [model_step] (entry-wise merge of
+   the replicator route) does not describe: only the specification is evaluated; [d_before] is
+   what a restart yields without the hostile heads *)
+| CMutCached (d : delivery) (mismatch : bool).
 
 Definition bad_b (d : delivery) (mismatch : bool) (e : entry) : bool :=
   negb (entry_verify e) || negb (elog e =? d_lid d)%N || mismatch.
@@ -19,6 +24,12 @@ Definition check (c : case) : bool * bool :=
   match c with
   | CMut d mismatch =>
     (agree_step c03_binds_identity_current c04_filters_foreign_current d,
+     match target_entry d with
+     | Some e => (if bad_b d mismatch e then negb (present d) || held_before d else true) && frame d
+     | None => true
+     end)
+  | CMutCached d mismatch =>
+    (true,
      match target_entry d with
      | Some e => (if bad_b d mismatch e then negb (present d) || held_before d else true) && frame d
      | None => true
